@@ -104,4 +104,116 @@ def c14(tier, seed, replay_path=None):
     return v
 
 
-CHECKS = {"C19": c19, "C14": c14}
+RIG = dict(name="p2prig", pkg_rel="transports/p2p", virtual_pkgs={"chain": "internal/verifh/chain"}, inpkg={"p2p": "transports/p2p"})
+
+
+def build_rig(race=False):
+    return c.build_harness(race=race, **RIG)
+
+
+def tlc_admission(consts, invariants, properties=(), view="AdView", emit_file=None, simulate=None, depth=None, seed=None, timeout=1800):
+    d = c.sub("cfg")
+    cfg = os.path.join(d, "adm_%d.cfg" % random.randrange(1 << 30))
+    c.write_cfg(cfg, "MAdSpec", consts, invariants, properties, view=view, extra=["CONSTANT Hosts <- HostsV", "CONSTANT GroupOf <- GroupV"])
+    r = c.run_tlc("MC_Admission", cfg, timeout=timeout, out_file=emit_file, simulate=simulate, depth=depth, seed=seed, workers=1 if simulate else None)
+    if not r.ok and not simulate:
+        c.tlc_must_pass(r, "MC_Admission")
+    return r
+
+
+def c18(tier, seed, replay_path=None):
+    rigbin = build_rig()
+    rng = random.Random(seed)
+    runs = []
+    # design: small constants, exhaustive
+    runs.append(tlc_admission({"NHosts": 3, "MaxPeers": 3, "MaxPerHost": 2, "MaxSteps": 7 if tier == "quick" else 9, "MaxAdv": 9, "Emit": '"none"'},
+                              ["TotalAtMostMaxPeers", "PerHostAtMostLimit", "CountersReturnToZero"], ["NoAdmissionWhileBanned", "AdmittedAgainAfterExpiry"]))
+    # conformance: the specification at the code's own constants (125 peers, 5 per host), simulated
+    d = c.sub("gen")
+    plans = [("few", 2, 36, 40 if tier == "quick" else 600), ("many", 30, 420, 6 if tier == "quick" else 60)]
+    aggs, gen = [], {}
+    for tag, nh, depth, num in plans:
+        raw = os.path.join(d, "C18%s.out" % tag)
+        r = tlc_admission({"NHosts": nh, "MaxPeers": 125, "MaxPerHost": 5, "MaxSteps": depth, "MaxAdv": 3, "Emit": '"paths"'}, ["EmitInv"], view=None, emit_file=raw,
+                          simulate="num=%d" % num, depth=depth + 1, seed=seed)
+        runs.append(r)
+        out = os.path.join(d, "C18%s.jsonl" % tag)
+        n = c.unquote_lines(raw, out)
+        os.unlink(raw)
+        if n == 0:
+            raise c.Infra("no admission behaviours generated (%s): %s" % (tag, r.out[-800:]))
+        if n > num:
+            keep = set(rng.sample(range(n), num))
+            with open(out) as fi, open(out + ".s", "w") as fo:
+                for i, line in enumerate(fi):
+                    if i in keep:
+                        fo.write(line)
+            os.replace(out + ".s", out)
+        gen[tag] = {"behaviours": min(n, num), "hosts": nh, "depth": depth}
+        c.log("  gen C18%s: %d behaviours" % (tag, min(n, num)))
+        aggs.append(fc.replay(rigbin, out, seed, op="admission", nproc=8))
+    agg = merge(aggs)
+    # ---- connection manager: design (ConnMgr.tla) and recorded executions of the real one (Trace_ConnMgr.tla)
+    d2 = c.sub("cfg")
+    cmcfg = os.path.join(d2, "connmgr.cfg")
+    cm_consts = {"Target": 2, "BanAt": 2, "Addrs": c.tla_set(["a", "b", "c", "d"]), "MaxFails": 4 if tier == "quick" else 5, "MaxDisc": 2, "Deviations": "{}"}
+    c.write_cfg(cmcfg, "CmSpec", cm_consts, ["OpenAtMostTarget", "LiveAtMostTarget", "SlotsNeverLost"], ["BackToTarget"])
+    runs.append(c.tlc_must_pass(c.run_tlc("ConnMgr", cmcfg, workers=c.NCPU), "ConnMgr"))
+    cm_consts["Deviations"] = c.tla_set(["BanLosesSlot"])
+    c.write_cfg(cmcfg, "CmSpec", cm_consts, ["SlotsNeverLost"], [])
+    r0 = c.run_tlc("ConnMgr", cmcfg, workers=4)
+    if r0.ok or not r0.violation:
+        raise c.Infra("model sensitivity lost: ConnMgr.tla with the BanLosesSlot deviation no longer violates SlotsNeverLost")
+    chainbin = fc.build()
+    viol_cm, events, cmstats = [], 0, {}
+    nsh, nsc = (4, 12) if tier == "quick" else (16, 60)
+    procs = []
+    env = c.go_env()
+    for i in range(nsh):
+        sd = c.sub("connmgr%02d" % i)
+        e = dict(env)
+        e.update({"VERIF_OP": "connmgr", "VERIF_OUT": os.path.join(sd, "connmgr_trace.ndjson"), "VERIF_SEED": str(seed * 100 + i), "VERIF_SCENARIOS": str(nsc)})
+        procs.append((sd, subprocess.Popen([chainbin, "-test.run", "^TestHarness$", "-test.timeout", "0"], env=e, cwd=sd, stdout=subprocess.PIPE, stderr=subprocess.PIPE, text=True)))
+    tcfg = os.path.join(d2, "connmgr_trace.cfg")
+    c.write_cfg(tcfg, "TraceSpec", {}, ["OpenAtMostTarget"], (), extra=["POSTCONDITION TraceAccepted"])
+    for sd, pr in procs:
+        so, se = pr.communicate(timeout=3000)
+        if pr.returncode != 0:
+            raise c.Infra("connmgr recorder failed: %s" % se[-1500:])
+        for k, val in json.load(open(os.path.join(sd, "connmgr_trace.ndjson.stats"))).items():
+            cmstats[k] = cmstats.get(k, 0) + val
+        f = os.path.join(sd, "connmgr_trace.ndjson")
+        r = c.run_tlc("Trace_ConnMgr", tcfg, workers=1, extra_files=[f])
+        lines = open(f).read().splitlines()
+        events += len(lines)
+        runs.append(r)
+        if not r.ok:
+            if "TraceAccepted" in r.out or "ostcondition" in r.out or "is violated" in r.out:
+                k = max(0, r.distinct - 1)
+                st0 = k
+                while st0 > 0 and '"ev":"start"' not in lines[st0]:
+                    st0 -= 1
+                viol_cm.append(("connection manager execution rejected by Trace_ConnMgr.tla at event %d: %s (scenario %s)" % (k + 1, lines[k][:200] if k < len(lines) else "?", lines[st0][:80]),
+                                {"family": "connmgr-trace", "events": lines[st0:k + 1][-120:]}))
+            else:
+                raise c.Infra("Trace_ConnMgr TLC failure: " + r.out[-1500:])
+    if cmstats.get("bans", 0) == 0 or cmstats.get("disconnects", 0) == 0 or cmstats.get("quiesce", 0) == 0:
+        raise c.Infra("vacuous connmgr run: %s" % cmstats)
+    st = agg["stats"]
+    if st.get("op:add", 0) == 0 or st.get("op:ban", 0) == 0 or st.get("op:done", 0) == 0 or st.get("op:advance", 0) == 0:
+        raise c.Infra("vacuous run: %s" % dict(st))
+    v = simple_verdict("C18", agg, runs, {"generation": gen, "exhaustive": False,
+                       "rule": "event sequences add(in|out|persistent, host) / done / ban / clock-advance simulated by TLC from Admission.tla at the code's constants (125 peers, 5 per host); "
+                               "replayed on the real handleAddPeerMsg / handleDonePeerMsg / handleBanPeerMsg with really-handshaken peers; after every step the return value, Connected() "
+                               "and the per-host, per-group and total counters are compared"})
+    v["violations"] += viol_cm
+    v["coverage"]["connmgr"] = {"recorded_events_validated": events, "stats": cmstats, "targets": "1..8", "retry_interval_ms": 1,
+                                "model_sensitivity": "ConnMgr.tla with BanLosesSlot violates SlotsNeverLost (%d states)" % r0.distinct}
+    v["coverage"]["traces_validated_against_impl"] += cmstats.get("scenarios", 0)
+    v["assumptions"] = ["persistent peers are exempt from the per-host counter (as in the code); they count towards the total and the outbound groups",
+                        "ban expiry uses a 150 ms ban duration and real sleeps; a step whose expected refusal is asked later than 60% into the ban is abandoned as timing-unreliable, never reported",
+                        "TLC, Json module and the Go toolchain are trusted"]
+    return v
+
+
+CHECKS = {"C19": c19, "C14": c14, "C18": c18}
